@@ -14,6 +14,7 @@ import WV.Model.C02
 import WV.Model.C03
 import WV.Model.C16
 import WV.Model.Observer
+import WV.Model.C17
 
 /-! Line-protocol driver over the executable models.  First stdin line names the model
     (`C12`, …); every following line is one operation; one output line per operation. -/
@@ -42,6 +43,7 @@ def dispatch (which : String) (lines : List String) : List String :=
   | "C03" => WV.C03.driver lines
   | "C16" => WV.C16.driver lines
   | "OBSERVER" => WV.Observer.driver lines
+  | "C17" => WV.C17.driver lines
   | _ => ["unknown-model " ++ which]
 
 def main : IO Unit := do
